@@ -73,6 +73,19 @@ def lnot(x):
     return z3.Not(x)
 
 
+def _small(e, budget=24):
+    """Bounded traversal: is the term tiny (so that simplifying it costs nothing)?"""
+    stack = [e]
+    n = 0
+    while stack:
+        x = stack.pop()
+        n += 1
+        if n > budget:
+            return False
+        stack.extend(x.children())
+    return True
+
+
 def simp_bool(b):
     """Reduce a z3 Bool to a Python bool when it is syntactically decided."""
     if isinstance(b, bool):
@@ -83,12 +96,14 @@ def simp_bool(b):
         return True
     if z3.is_false(b):
         return False
-    s = z3.simplify(b)
-    if z3.is_true(s):
-        return True
-    if z3.is_false(s):
-        return False
-    return s
+    if _small(b):
+        s = z3.simplify(b)
+        if z3.is_true(s):
+            return True
+        if z3.is_false(s):
+            return False
+        return s
+    return b
 
 
 # ---------------------------------------------------------------- C types
@@ -208,18 +223,24 @@ def sint_z3(x):
 
 def norm_sint(term):
     """SInt or concrete int after simplification."""
-    s = z3.simplify(term)
-    if z3.is_bv_value(s):
-        return s.as_signed_long()
-    return SInt(s)
+    if z3.is_bv_value(term):
+        return term.as_signed_long()
+    if _small(term, 12):
+        t2 = z3.simplify(term)
+        if z3.is_bv_value(t2):
+            return t2.as_signed_long()
+    return SInt(term)
 
 
 def norm_cval(term, ctype):
     if is_sym(term):
-        s = z3.simplify(term)
-        if ctype.kind == 'int' and z3.is_bv_value(s):
-            return CVal(s.as_long(), ctype)
-        return CVal(s, ctype)
+        if ctype.kind == 'int' and z3.is_bv_value(term):
+            return CVal(term.as_long(), ctype)
+        if ctype.kind == 'int' and _small(term, 12):
+            t2 = z3.simplify(term)
+            if z3.is_bv_value(t2):
+                return CVal(t2.as_long(), ctype)
+        return CVal(term, ctype)
     return CVal(term, ctype)
 
 
@@ -292,7 +313,41 @@ def ite(c, a, b):
         pass
     if hasattr(a, 'sym_merge') and type(a) is type(b):
         return a.sym_merge(c, b)
+    if _choiceable(a) and _choiceable(b):
+        return PyChoice.merge(c, a, b)
     raise CannotEncode(f'cannot merge {type(a).__name__} {a!r} with {type(b).__name__} {b!r} under a symbolic guard')
+
+
+class PyChoice:
+    """Guarded choice between concrete python objects (strings, tags, None ...): [(condition, value)]."""
+    def __init__(self, alts):
+        self.alts = alts
+
+    @staticmethod
+    def of(x):
+        return x.alts if isinstance(x, PyChoice) else [(True, x)]
+
+    @staticmethod
+    def merge(c, a, b):
+        alts = [(land(c, g), v) for g, v in PyChoice.of(a)] + [(land(lnot(c), g), v) for g, v in PyChoice.of(b)]
+        out = []
+        for g, v in alts:
+            for i, (g2, v2) in enumerate(out):
+                if v2 is v or (type(v2) is type(v) and isinstance(v, (str, int, bytes, tuple, type(None))) and v2 == v):
+                    out[i] = (lor(g2, g), v2)
+                    break
+            else:
+                out.append((g, v))
+        return PyChoice(out)
+
+    def __repr__(self):
+        return f'<PyChoice {[v for _, v in self.alts]}>'
+
+
+def _choiceable(x):
+    if isinstance(x, PyChoice) or x is None or isinstance(x, (str, bytes, tuple)):
+        return True
+    return getattr(x, 'choiceable', False)
 
 
 # ---------------------------------------------------------------- sequences
@@ -368,7 +423,4 @@ def bv_value(t):
     if is_sym(t):
         if z3.is_bv_value(t):
             return t.as_long()
-        s = z3.simplify(t)
-        if z3.is_bv_value(s):
-            return s.as_long()
     return None
